@@ -289,7 +289,11 @@ func (s *Solver) readAnswer() SatResult {
 // Check asks whether the current assertions are satisfiable.
 func (s *Solver) Check() SatResult {
 	s.lastErr = ""
-	return s.checkRaw()
+	r := s.checkRaw()
+	if r == Unknown {
+		s.recover()
+	}
+	return r
 }
 
 // CheckWith asks whether assertions ∧ extra is satisfiable; the scope is
@@ -307,7 +311,11 @@ func (s *Solver) CheckWith(extra *Term, keepOnSat bool) SatResult {
 		s.depth++
 		return r
 	}
-	s.send("(pop)\n")
+	if r == Unknown {
+		s.recover()
+	} else {
+		s.send("(pop)\n")
+	}
 	if r == Unknown && !s.noOneShot && !s.dead && s.lastErr == "" {
 		// retry in a fresh non-incremental process; a "sat" is only usable when no model is wanted
 		if r2 := s.oneShot(extra); r2 == Unsat || (r2 == Sat && !keepOnSat) {
@@ -321,6 +329,26 @@ func (s *Solver) CheckWith(extra *Term, keepOnSat bool) SatResult {
 		}
 	}
 	return r
+}
+
+// recover rebuilds the solver context after an undecided or failed query: z3
+// 4.8.12 can be left "canceled" by a timed-out check, after which (push)/(pop)
+// fail and later declarations clash ("already declared").  A new process is
+// started and the assertions of the current path are sent again.
+func (s *Solver) recover() {
+	if s.fresh {
+		return
+	}
+	lastErr := s.lastErr
+	s.restart()
+	s.send("(push)\n")
+	s.depth = 1
+	for _, t := range s.asserted {
+		s.em.Define(t)
+		s.send(s.em.Take())
+		s.send("(assert " + s.em.ref(t) + ")\n")
+	}
+	s.lastErr = lastErr
 }
 
 func (s *Solver) PopModel() {
